@@ -27,7 +27,7 @@ pub struct LegacyTransaction {
     #[serde(with = "serialization::bytes")]
     pub data: Vec<u8>,
     /// Optional chain ID for the transaction.
-    #[serde(default, rename = "chainId", with = "serialization::numopt")]
+    #[serde(default, rename = "chainId", with = "serialization::chainid")]
     pub chain_id: Option<U256>,
 }
 
